@@ -6,7 +6,7 @@
 From Coq Require Import Lia ZifyBool ZifyN ZifyNat.
 Require Import BV.Model.Base BV.Model.SrcB BV.Model.Length BV.Model.Tag BV.Model.Content BV.Model.OctStr.
 Require Import BV.Proofs.Bits BV.Proofs.SrcBP BV.Proofs.LengthP BV.Proofs.TagP BV.Proofs.ContentP
-               BV.Proofs.WinP BV.Proofs.GrammarP BV.Proofs.TermP BV.Proofs.OctGrammarP.
+               BV.Proofs.WinP BV.Proofs.GrammarP BV.Proofs.SkipP BV.Proofs.TermP BV.Proofs.OctGrammarP BV.Proofs.OctCerP.
 Arguments N.add : simpl never. Arguments N.sub : simpl never.
 Arguments N.ltb : simpl never. Arguments N.leb : simpl never. Arguments N.eqb : simpl never.
 Arguments N.min : simpl never.
@@ -164,6 +164,29 @@ Theorem oss_of_accepted_ber fuel c s o c' s' : nf s -> octets_ok (rem s) = true 
 Proof.
   intros Hn Ho H. destruct (constructed_ber_is_segments fuel c s o c' s' Hn Ho H) as (ts & _ & _ & Hoct & _).
   exists (concat (leaves_l ts)). split; [exact Hoct|apply oss_new_has, Hoct].
+Qed.
+(* and every constructed octet string the CER reader accepts: its content is a grammar string too *)
+Lemma cer_segs_grammar segs ds : cer_segs segs ds ->
+  encs Cer (map (TPrim T_OCTET_STRING) segs) ds /\
+  accepts octet_filter (traces (map (TPrim T_OCTET_STRING) segs) 0) = true /\
+  leaves_l (map (TPrim T_OCTET_STRING) segs) = segs.
+Proof.
+  induction 1 as [|c r lw ds Hl Hr IH]; [repeat split; constructor|].
+  destruct IH as (He & Ha & Hlv). cbn [map]. split; [|split].
+  - constructor; [|exact He]. constructor; [apply legal_octet_string|reflexivity|exact Hl].
+  - cbn [traces trace_of]. rewrite accepts_app. cbn [accepts forallb octet_filter]. rewrite Ha. reflexivity.
+  - cbn [leaves_l leaves app]. rewrite Hlv. reflexivity.
+Qed.
+
+Theorem oss_of_accepted_cer fuel c s o c' s' : nf s -> octets_ok (rem s) = true -> cmd c = Cer ->
+  take_constructed_cer fuel c s = (Ok (o, c'), s') ->
+  exists x, os_octets o = Ok x /\ oss_has (oss_new o) x.
+Proof.
+  intros Hn Ho Hm H. destruct (constructed_cer_sound fuel c s o c' s' Hn Ho Hm H) as (segs & ds & -> & Hs & _ & Hrem).
+  destruct (cer_segs_grammar segs ds Hs) as (He & Ha & Hlv).
+  assert (Hod : octets_ok ds = true) by (rewrite Hrem in Ho; apply octets_ok_app_l in Ho; exact Ho).
+  destruct (segments_are_leaves Cer _ ds He Ha Hod) as [_ Hoct]. rewrite Hlv in Hoct.
+  exists (concat segs). split; [exact Hoct|apply oss_new_has, Hoct].
 Qed.
 Theorem oss_of_primitive b : oss_has (oss_new (OPrim b)) b.
 Proof. apply oss_new_has. unfold os_octets, os_segments. destruct b; cbn [res_map concat]; rewrite ?app_nil_r; reflexivity. Qed.
